@@ -546,6 +546,11 @@ class Interp:
             pass
         if e.id in BUILTINS:
             return BUILTINS[e.id]
+        import builtins as _py
+        if hasattr(_py, e.id):
+            # a Python builtin the interpreter has no model for: undecided,
+            # never a NameError of the analysed program
+            raise Unmodelled(f'builtin {e.id}')
         raise Raised('NameError', f"name '{e.id}' is not defined", e)
 
     def ev_Attribute(self, e, env):
@@ -923,6 +928,17 @@ def _b_list(x=()):
     return list(x)
 
 
+def _b_next(it, *default):
+    xs = _b_list(it)
+    if is_unk(xs):
+        return Unk('next')
+    if xs:
+        return xs[0]
+    if default:
+        return default[0]
+    raise Raised('StopIteration', None)
+
+
 def _b_reversed(x):
     return list(reversed(_b_list(x)))
 
@@ -1016,6 +1032,16 @@ BUILTINS = {
     hasattr(x, 'type_') else Unk('type'),
     'id': lambda x: Unk('id'),
     'repr': lambda x: Unk('repr'),
+    'next': lambda it, *d: _b_next(it, *d),
+    'iter': lambda x: _b_list(x),
+    'divmod': lambda a, b: Unk('divmod') if is_unk(a) or is_unk(b)
+    else divmod(a, b),
+    'hex': lambda x: Unk('hex', True) if is_unk(x) else hex(x),
+    'frozenset': lambda x=(): frozenset(_b_list(x)),
+    'map': lambda f, *a: Unk('map'),
+    'filter': lambda f, x: Unk('filter'),
+    'format': lambda *a: Unk('format', True),
+    'pow': lambda *a: Unk('pow') if any(is_unk(x) for x in a) else pow(*a),
     'True': True, 'False': False, 'None': None,
     'Exception': 'Exception', 'ValueError': 'ValueError',
     'TypeError': 'TypeError', 'IndexError': 'IndexError',
